@@ -38,18 +38,33 @@ SPEC = {
                 'fChain values and F fit Go int (64 bit)'],
     'assumptions': ['libocr delivers at most one observation per oracle per round and calls ValidateObservation before Outcome',
                     'Go maps inside an observation (FChain, Addresses[contract]) have unique keys by construction'],
-    'level_text': 'Proof: Coq theorems over the executable model of aggregateObservations / ValidateObservation / getConsensusObservation / '
-                  'discovery Outcome for all F, role assignments and validated observation lists with distinct oracles: agreed f has 2F+1 distinct '
-                  'supporters and is unique; a per-chain value is in the outcome iff the f of the chain it is READ FROM is agreed and it is the unique value with 2f+1 distinct '
-                  'designated reporters — f of the key chain for roots / on-ramp numbers / RMN config, f of the destination for off-ramp next numbers of every source key '
-                  '(as repaired by fixes/F26.patch; C01_offramp_key_f_unfixed_refuted: at the key chain f three destination readers, |B| = f_dest, alone added a number or blocked the agreement of 2*f_dest+1 others); '
-                  'one oracle contributes at most one vote per chain and field; at most f oracles cannot account for an agreed value (C01_byzantine, C01_byzantine_offramp); '
-                  'same for the five discovered address maps. Correspondence: the real functions run against the model and an independent '
-                  'distinct-oracle counting property on generated vote vectors every run',
-    'level_note': 'Trusted: Coq kernel, hand-written model, differential harness. No axioms. Plugin level: commit.Plugin built by NewPlugin '
-                  '(discovery enabled, fresh and initialised instances, N in {4,7}, F in {1,2}, partial roles) through ValidateObservation + Outcome, '
-                  'verdicts judged against the MODEL\'s validation; ObservationQuorum = 2F+1 (no C01 theorem assumes a quorum: they hold for every '
-                  'validated observation list).',
-    'modelled': 'aggregateObservations, Processor.ValidateObservation (+ ccipChainSupport lookups), getConsensusObservation, '
-                'consensus.GetConsensusMap / minObservation / TwoFPlus1, discovery aggregateObservations + Outcome',
+    'level_text': 'Proof: 28 closed Coq theorems. 16 property theorems over the model of aggregateObservations / ValidateObservation / getConsensusObservation / '
+                  'discovery Outcome, for all F, roles and validated observation lists with distinct oracles: the agreed f has 2F+1 distinct supporters and is unique '
+                  '(C01_fchain); a per-chain value is in the outcome iff the f of the chain it is READ FROM is agreed and it is the unique value with 2f+1 distinct '
+                  'designated reporters (C01_per_chain, C01_designated: key-chain f for roots / on-ramp numbers / RMN config, destination f for off-ramp next numbers of '
+                  'every source key - repair F26 in /repo); one oracle has at most one vote per chain and field (C01_one_vote; needs validation: '
+                  'C01_one_vote_unvalidated_refuted); at most f oracles can neither account for nor alter an agreed value (C01_byzantine, C01_byzantine_offramp, '
+                  'C01_byzantine_cannot_alter); the same for the five discovered address maps, on-ramps at the destination f (C01_discovery, _reported, _byzantine). '
+                  'Unrepaired code refuted: C01_offramp_key_f_unfixed_refuted (F26), C01_discovery_onramp_unfixed_refuted (F03). Judge soundness (12 C01_judge_*): for '
+                  "each of the 4 sinks the executable property accepts the model's output and a passing implementation output satisfies the iff clauses verbatim. "
+                  'Correspondence, every run: the real Processor.ValidateObservation + getConsensusObservation, discovery Outcome with a recording Sync, and '
+                  'commit.Plugin built by NewPlugin (JSON observations through ValidateObservation + Outcome, ObservationQuorum) on vote vectors at the thresholds, '
+                  'compared with the model; the same consensus model is judged round by round on four long-lived plugins in the C04 history (sink C04_round). Translation '
+                  'tie: TwoFPlus1, FPlus1, the threshold predicates and the chain-set loops of the three merkle-root validators are re-translated from the Go source and '
+                  "proved equal to the model (9 theorems, C01_gen.v). Not observable at plugin level: agreed roots (not part of that state's outcome).",
+    'level_note': 'Trusted: Coq kernel, hand-written model and theorem statements, differential harness (its generators bound the correspondence), leaf translator. '
+                  "Specific: home-chain role lookups are answered by the scripted fake vHomeChain; value identity in the case files is the harness's own canonical "
+                  "encoding (that the code's sha3-of-%v vote identity separates exactly these values is checked; sha3 collisions ignored); F and fChain values fit a "
+                  '64-bit Go int (generated thresholds proved for 0 <= f < 2^63, int overflow not modelled). libocr is modelled, not verified: at most one attributed '
+                  'observation per oracle per round, ValidateObservation before Outcome. ObservationQuorum = 2F+1 is checked (sink C01_quorum) but no C01 theorem assumes '
+                  'a quorum: they hold for every validated observation list. Plugin part: fresh and initialised instances, N in {4,7}, F in {1,2}, partial roles, '
+                  'discovery enabled. No axioms.',
+    'technique': 'Coq iff-characterisation of every consensus map over a hand-written Gallina model; differential correspondence (go test -overlay, vm_compute judge, '
+                 'judge proved sound) on function, processor and plugin level; threshold functions and validator chain-set loops re-translated from Go (C01_gen.v)',
+    'modelled': 'Hand model (Model/Consensus.v, CommitConsensus.v, Discovery.v): merkleroot aggregateObservations, Processor.ValidateObservation (+ ccipChainSupport '
+                'lookups), getConsensusObservation, consensus.GetConsensusMap / minObservation / TwoFPlus1, discovery aggregateObservations + Outcome; '
+                'commit.Plugin.ValidateObservation / Outcome as the composition plug_validate / mro_of (Check/C01_check.v). Translated from source per run: '
+                'consensus.TwoFPlus1, FPlus1, GteFPlusOne, LtFPlusOne, LtTwoFPlusOne, the chain-set loops of validateObservedMerkleRoots / OnRampMaxSeqNums / '
+                'OffRampMaxSeqNums. Inputs of the model (not modelled): home-chain role and f lookups, the oracle-id to peer-id map, the vote identity of a value '
+                '(interned by the harness), CCIPReader.Sync (recorded)',
 }
